@@ -355,7 +355,14 @@ def build_virocon(spec):
             desc["conditional_on"] = d["cond"]
             desc["parameters"] = build_depfuncs(d)
         descs.append(desc)
-    return GlobalHierarchicalModel(descs)
+    model = GlobalHierarchicalModel(descs)
+    for i, dist in enumerate(model.distributions):
+        if spec["dims"][i].get("cond") is not None:
+            try:
+                dist._vmon_dimspec = spec["dims"][i]  # lets the conditional-distribution monitor find its reference
+            except AttributeError:
+                pass
+    return model
 
 
 # ----------------------------------------------------------------------
@@ -412,7 +419,7 @@ def _gen_dep(rng, kind, lo, hi, xlo, xhi, domain, allow_hostile=True, fam=None, 
     return d
 
 
-def gen_dim(rng, fam, cond, ref_so_far, table=RANGE, allow_hostile=True, p_fixed=0.3, allow_chain=True):
+def gen_dim(rng, fam, cond, ref_so_far, table=RANGE, allow_hostile=True, p_fixed=0.3, allow_chain=True, dep_names=None):
     """One dimension spec.  ref_so_far: RefModel of the dimensions before (for ranges)."""
     if cond is None:
         return {"fam": fam, "params": draw_params(rng, fam, table)}
@@ -421,16 +428,23 @@ def gen_dim(rng, fam, cond, ref_so_far, table=RANGE, allow_hostile=True, p_fixed
     names = R.PARAMS[fam]
     for _attempt in range(50):
         params = {}
-        dep_names = []
-        for n in names:
-            if rng.random() < p_fixed:
-                params[n] = draw_param(rng, fam, n, table)
-            else:
-                dep_names.append(n)
-        if not dep_names:
-            n = names[int(rng.integers(len(names)))]
-            dep_names.append(n)
-        for n in dep_names:
+        if dep_names is None:
+            deps = []
+            for n in names:
+                if rng.random() < p_fixed:
+                    params[n] = draw_param(rng, fam, n, table)
+                else:
+                    deps.append(n)
+            if not deps:
+                n = names[int(rng.integers(len(names)))]
+                params.pop(n, None)
+                deps.append(n)
+        else:
+            deps = list(dep_names)
+            for n in names:
+                if n not in deps:
+                    params[n] = draw_param(rng, fam, n, table)
+        for n in deps:
             lo, hi = table[fam][n]
             kind = KIND[fam][n]
             if kind == "pos":
@@ -458,6 +472,7 @@ def gen_dim(rng, fam, cond, ref_so_far, table=RANGE, allow_hostile=True, p_fixed
             xs = max(abs(xhi), 1e-6)
             a0 = float(rng.uniform(lo, hi / 2))
             params["alpha"] = {"shape": "alpha3", "coef": [a0, (hi - a0) / xs**c * float(rng.uniform(0.2, 1.0)), c], "chain": "beta"}
+        params = {n: params[n] for n in names}  # declaration order = the family's parameter order
         dim = {"fam": fam, "cond": cond, "params": params}
         if _dim_admissible(dim, xlo, xhi):
             return dim
